@@ -447,7 +447,7 @@ def _run_history(case, stats, root, target, TARGET):
         a = sim.add_actor("c", make_call(call, root, shared_tool), faultable=bool(st.get("faults")))
         sim.run()
         faulted = bool(sim.fired)
-        last_ops = [(op.name, op.cls) for op in a.ops]
+        last_ops = [(op.name, op.cls, op.path) for op in a.ops]
         if sim.bypass:
             raise seam.HarnessError(f"seam bypass: {sim.bypass[:3]}")
         out = outcome_of(call, a)
@@ -581,12 +581,14 @@ def run_l1f(idx: int, stats: Stats, viols: list):
         if len(viols) < 30:
             viols.append({"clause": v["clause"], "signature": v["signature"], "detail": v["detail"], "case": case0})
     n = 0
-    for at, (name, cls) in enumerate(ref["last_ops"]):
+    for at, (name, cls, opath) in enumerate(ref["last_ops"]):
         for en in L1F_ERRNOS:
             if en not in seam.admissible(name):
                 continue
-            for sticky in (False, True):
-                st2 = dict(st, faults=[{"actor": 0, "at": at, "kind": "errno", "errno": en, "sticky": sticky}])
+            # one-shot; sticky (the errno stays for every later operation that admits it); "same" = this operation on this path
+            # keeps failing (e.g. every read of the target) while everything else works
+            for mode in ("once", "sticky", "same"):
+                st2 = dict(st, faults=[{"actor": 0, "at": at, "kind": "errno", "errno": en, "sticky": {"once": False, "sticky": True, "same": "same"}[mode]}])
                 case = dict(case0, steps=steps + [st2])
                 res = run_history(case, stats)
                 n += 1
@@ -596,7 +598,7 @@ def run_l1f(idx: int, stats: Stats, viols: list):
                     stats.group("l1f_fault_at_class", f"{cls}:{en}")
                 for v in res["violations"]:
                     if len(viols) < 30:
-                        viols.append({"clause": v["clause"], "signature": v["signature"] + "|fault", "detail": v["detail"], "case": case})
+                        viols.append({"clause": v["clause"], "signature": v["signature"], "detail": v["detail"], "case": case})
     stats.group("l1f_runs_per_case", f"{kind}/{bhk}/{pre or '-'}", n)
 
 
